@@ -590,6 +590,10 @@ class Fn:
                         uw = t.get("unwind")
                         for unwind_state, inner in cands:
                             intermediate = inner or self.write_reachable_after(bb, t.get("target"))
+                            if t.get("target") is None and unwind_state != self.entry:
+                                # a call that never returns (a failed assertion): the function is left exactly here, with
+                                # whatever it has written so far
+                                intermediate = True
                             if isinstance(uw, int):
                                 outs = self.unwind_outcome(uw, unwind_state, fl, is_drop_impl)
                             elif uw == "terminate" or uw == "unreachable":
@@ -865,6 +869,17 @@ def r_shape(f):
             RH.inst(b.ident, "%s on elements happens while the Vec length is lowered (%s: %s)" % (fn["path"].split("::")[-1], src, sorted(sts)), hidden)
             if not hidden:
                 RH.fail(b.ident, "exposed:%s" % fn["path"].split("::")[-1], "%s moves elements bitwise with %s while the buffer is still visible to Vec (len state %s): a panic or early return here double-drops or exposes a moved-out element" % (b.ident, fn["path"], sorted(sts)), b.where(t["span"]))
+        # the window must be opened by *forgetting* the elements (set_len), never by a call that drops or moves them out: the
+        # raw moves that follow would bring dropped elements back to life
+        if is_shape_writer(cx, b, direct=True):
+            fnx0 = Fn(cx, b)
+            raw_blocks0 = {bi for bi, t, fn in raw}
+            for bi, t, fn in b.calls():
+                if fn and fnx0._is_write_term(t, direct=True) and fn["name"] in LEN_CHANGERS and fn["name"] in ("truncate", "clear", "drain", "pop", "remove", "swap_remove", "retain", "retain_mut", "dedup", "dedup_by", "dedup_by_key", "split_off", "resize", "resize_with"):
+                    after = set(b.reachable(bi))
+                    if any(rb in after and rb != bi for rb in raw_blocks0):
+                        RH.inst(b.ident, "the window is opened with set_len, not with a call that drops elements", False)
+                        RH.fail(b.ident, "drops-then-moves:%s" % fn["name"], "%s lowers the Vec length with %s, which drops (or hands out) the elements, and afterwards moves the same cells bitwise and restores the length: dropped elements are resurrected and dropped again later" % (b.ident, fn["name"]), b.where(t["span"]))
         # closing: every normal path from a raw move to `return` passes a length write (restore) or the function returns a guard
         if is_shape_writer(cx, b):
             fnx = Fn(cx, b)
@@ -913,6 +928,30 @@ def r_shape(f):
                 RR.inst(db.ident, "caller code at %s (state %s) is covered by a restorer guard: unwind outcome %s" % (pk, st, outs), ok)
                 if not ok:
                     RR.fail(db.ident, "unguarded:%s" % pk, "%s runs caller code (%s) with the restore still pending and no live guard: if it panics, the compaction never happens and the array is left empty instead of 'the original without the removed line'" % (db.ident, pk), db.where())
+    # ... and no normal path through that destructor skips the restorer (an early `return` leaves the elements undropped and
+    # the array emptied)
+    for ap, db in cx.drop_of.items():
+        if not is_shape_writer(cx, db):
+            continue
+        if not any(returns_leakable(cx, b) == ap for b in f.fn_bodies if b.kind != "Closure"):
+            continue
+        wblocks = [bi for bi, bl in enumerate(db.blocks) if not bl["cleanup"] and (any(Fn(cx, db)._is_write_stmt(st) for st in bl["stmts"]) or Fn(cx, db)._is_write_term(bl["term"]))]
+        rets = [rb for rb, bl in enumerate(db.blocks) if bl["term"] and bl["term"]["k"] == "return" and not bl["cleanup"] and rb in db.reachable(0)]
+        def passes(rb):
+            seen, work = set(), [0]
+            while work:
+                x = work.pop()
+                if x in seen or x in wblocks:
+                    continue
+                seen.add(x)
+                if x == rb:
+                    return False
+                work.extend(db.succs(x))
+            return True
+        skipping = [rb for rb in rets if not passes(rb)]
+        RR.inst(db.ident, "every normal path through the destructor performs the restore (%d shape-writing blocks)" % len(wblocks), bool(wblocks) and not skipping)
+        if wblocks and skipping:
+            RR.fail(db.ident, "restore-skipped", "%s can return without restoring the array (an early return bypasses the compaction / the drop of the remaining elements): the removed line's unconsumed elements are never dropped and the array stays empty" % db.ident, db.where())
     # R-DRAINSTEP: the iterator impls of a hand-made drain only single-step the embedded cursor and read out exactly
     # the element stepped over (anything that jumps - nth, nth_back, skip, advance_by, last - forgets elements)
     RS = Result("R-DRAINSTEP")
@@ -951,6 +990,9 @@ def r_shape(f):
                     continue
                 if fn["name"] in ("next", "next_back"):
                     steps += 1
+                    want_dir = {"next": "next", "nth": "next", "next_back": "next_back", "nth_back": "next_back", "last": "next_back", "rfold": "next_back", "fold": "next"}.get(b.name)
+                    if want_dir and fn["name"] != want_dir:
+                        bad.append(("direction:" + fn["name"], t["span"]))
                 elif fn["name"] in ("size_hint", "len", "is_empty"):
                     pass
                 elif any(ns is not None and (ns == bi or ns in dom_.get(bi, set())) for ns in nodrop_succ):
@@ -970,6 +1012,9 @@ def r_shape(f):
                 ok = not bad and reads >= steps
                 RS.inst(b.ident, "advances the embedded cursor only by single steps (%d) and reads out each stepped-over element (%d ptr::read)" % (steps, reads), ok)
                 for nm, sp in bad:
+                    if nm.startswith("direction:"):
+                        RS.fail(b.ident, nm, "%s steps the embedded cursor with %s: the drain yields its elements from the wrong end" % (b.ident, nm.split(":")[1]), b.where(sp))
+                        continue
                     RS.fail(b.ident, "jump:%s" % nm, "%s advances the drain's embedded cursor with %s: the elements jumped over are neither yielded nor dropped, and the destructor then overwrites them (leak)" % (b.ident, nm), b.where(sp))
                 if not bad and reads < steps:
                     RS.fail(b.ident, "no-read", "%s steps the embedded cursor without reading the element out" % b.ident, b.where())
